@@ -71,24 +71,50 @@ class NPX:
         return m.T.copy() if unpack else m.copy()
 
 
+OTHERS = ['other', 'other2', 'other3']
+MAXC = 3
+
+
 class SymCoordsX:
-    def __init__(self, names, ncoords, has_dim, edges):
-        self.names, self.ncoords, self.has_dim, self.edges = names, ncoords, has_dim, edges
+    """Coordinates of the stand-in: symbolic count (0..3), symbolic presence of the dimension-coordinate, per-coordinate
+    symbolic bin-edge and alignment flags.  Counting and membership tests stay symbolic; iteration concretises the count."""
+
+    def __init__(self, C, ncoords, has_dim, edges):
+        self.C, self.ncoords, self.has_dim, self.edges = C, ncoords, has_dim, edges
         self.vars = {}
 
     def __symlen__(self):
         return self.ncoords
 
+    def _present(self):
+        k = None
+        for i in range(MAXC + 1):
+            if bool(self.ncoords == i):
+                k = i
+                break
+        if k is None:
+            raise self.C.Unsupported('more coordinates than the bound')
+        hd = bool(self.has_dim)
+        return (['DIM'] if hd else []) + OTHERS[:k - (1 if hd else 0)]
+
     def __contains__(self, name):
         if name == 'DIM':
             return bool(self.has_dim)
-        return name in self.names
+        if name in OTHERS:
+            return bool(self.ncoords - self.C.R.lift(1 if bool(self.has_dim) else 0) > OTHERS.index(name))
+        return False
 
     def __iter__(self):
-        return iter(self.names)
+        return iter(self._present())
 
     def keys(self):
-        return list(self.names)
+        return list(self._present())
+
+    def values(self):
+        return [self.vars[k] for k in self._present()]
+
+    def items(self):
+        return [(k, self.vars[k]) for k in self._present()]
 
     def is_edges(self, name, dim=None):
         return bool(self.edges[name])
@@ -122,12 +148,13 @@ class XDA:
         self.masks = _Masks(C.B('z3', __import__('z3').Bool('has_masks')))
         self.ncoords = C.sym_var('ncoords', is_int=True, sign='0+')
         self.has_dim = C.B('z3', __import__('z3').Bool('dim_coord_present'))
-        self.names = ['DIM', 'other']
-        self.edges = {k: C.B('z3', __import__('z3').Bool(f'edges_{k}')) for k in (*self.names, 'given')}
-        self.coords = SymCoordsX(self.names, self.ncoords, self.has_dim, self.edges)
+        self.names = ['DIM', *OTHERS]
+        self.edges = {k: C.B('z3', __import__('z3').Bool(f'edges_{k}')) for k in self.names}
+        self.aligned = {k: C.B('z3', __import__('z3').Bool(f'aligned_{k}')) for k in self.names}
+        self.coords = SymCoordsX(C, self.ncoords, self.has_dim, self.edges)
         self.y = [C.sym_var(f'y{i}') for i in range(n)]
         self.v = [C.sym_var(f'v{i}', sign='0+') for i in range(n)]
-        self.x = {k: [C.sym_var(f'{k}_{i}') for i in range(n)] for k in (*self.names, 'given')}
+        self.x = {k: [C.sym_var(f'{k}_{i}') for i in range(n)] for k in self.names}
 
         def arr(vals):
             a = np.empty((len(vals),), dtype=object)
@@ -139,6 +166,11 @@ class XDA:
         self.variances = arr(self.v) if has_var else None
         for k in self.x:
             self.coords.vars[k] = Variable(_arr=arr(self.x[k]), dims=('DIM',), unit=sc.Unit('us'), dtype=sc.DType.float64)
+            self.coords.vars[k]._aligned = self.aligned[k]
+
+    def structure_assumptions(self, C):
+        """0..3 coordinates; a present dimension-coordinate counts as one of them."""
+        return [self.ncoords <= MAXC, ~self.has_dim | (self.ncoords >= 1)]
 
 
 def _load():
@@ -168,6 +200,14 @@ def _load():
     return sc, xye
 
 
+def _zmodel(C, constraints):
+    m = C.solve(list(constraints))
+    if m.status != 'sat':
+        return {}
+    zm = m.solver.model()
+    return {str(d): str(zm[d]) for d in zm.decls()}
+
+
 def job_refusal(j, seed):
     has_var, coord_given, n = j
     import z3
@@ -177,33 +217,37 @@ def job_refusal(j, seed):
     sc, xye = _load()
     fresh_run()
     obs, cands = [], []
-    tag = f'save[variances={has_var},coord={"given" if coord_given else "None"},rows={n}]'
+    tag = f'save[variances={has_var},coord={coord_given},rows={n}]'
     case = {'kind': 'save', 'has_var': has_var, 'coord_given': coord_given, 'n': n}
     C.CTX.fork_timeout_ms = 3000
-    holder = {}
-
-    def run():
-        da = XDA(sc, C, has_var, n)
-        holder['da'] = da
-        _Calls.saved = None
-        xye.save_xye('FILE', da, coord='given' if coord_given else None, header='user header\nline 2')
-        return da, _Calls.saved, _Calls.fmt, _Calls.header
-
-    # len(coords) is consulted as ==0, ==1, >1: keep the count small
-    paths = C.explore(run, max_paths=400)
     da0 = XDA(sc, C, has_var, n)
     ndim, ncoords, has_dim, masks = da0.ndim, da0.ncoords, da0.has_dim, da0.masks.b
     edges = da0.edges
-    # chosen coordinate per the documented rule
+    for a in da0.structure_assumptions(C):
+        C.CTX.assume(a)
+    n_other = ncoords - C.R.lift(1) * 0
+    if coord_given == 'DIM':
+        C.CTX.assume(has_dim)  # a coordinate named explicitly exists (a missing one is a KeyError of the container)
+    elif coord_given == 'other':
+        C.CTX.assume((has_dim & (ncoords >= 2)) | (~has_dim & (ncoords >= 1)))
+
+    def run():
+        da = XDA(sc, C, has_var, n)
+        _Calls.saved = None
+        xye.save_xye('FILE', da, coord=coord_given, header='user header\nline 2')
+        return da, _Calls.saved, _Calls.fmt, _Calls.header
+
+    paths = C.explore(run, max_paths=1500)
+    # chosen coordinate per the documented rule (alignment flags play no part in it)
     if coord_given:
         ambiguous = C.FALSE
-        edge_chosen = edges['given']
-        chosen_cases = [(C.TRUE, 'given')]
+        chosen_cases = [(C.TRUE, coord_given)]
+        edge_chosen = edges[coord_given]
     else:
         ambiguous = (ncoords > 1) & ~has_dim
-        # one coordinate: that one (called 'DIM' first in our naming), more: the dimension-coordinate
-        chosen_cases = [(ncoords == 1, 'DIM'), ((ncoords > 1) & has_dim, 'DIM')]
-        edge_chosen = edges['DIM']
+        # exactly one coordinate: that one; several: the dimension-coordinate
+        chosen_cases = [((ncoords == 1) & has_dim, 'DIM'), ((ncoords == 1) & ~has_dim, 'other'), ((ncoords > 1) & has_dim, 'DIM')]
+        edge_chosen = (has_dim & edges['DIM']) | ((ncoords == 1) & ~has_dim & edges['other'])
     refuse = C.B.const(not has_var) | (ndim != 1) | masks | (ncoords == 0) | ambiguous | edge_chosen
     ok_types = {'VariancesError': C.B.const(not has_var), 'DimensionError': ndim != 1, 'ValueError': masks | (ncoords == 0) | ambiguous, 'CoordError': edge_chosen}
     nsaved = 0
@@ -216,28 +260,23 @@ def job_refusal(j, seed):
             cond = ok_types.get(tname)
             if cond is None:
                 obs.append({'name': f'{tag}:path{k}:unexpected exception', 'status': 'violated', 'detail': repr(p.exc)[:200], 't': 0})
-                cands.append(('C15:save:raises', case, repr(p.exc)[:100]))
+                cands.append(('C15:save:raises', {**case, 'model': _zmodel(C, [*C.CTX.assumptions, *p.pc])}, repr(p.exc)[:100]))
                 continue
             ob = C.prove(f'{tag}:path{k}:{tname} only when its condition holds', cond, pc=p.pc)
             obs.append(ob_dict(ob))
             if ob.status == 'violated':
-                cands.append(('C15:refusal', case, f'{tname} raised for representable data'))
+                cands.append(('C15:refusal', {**case, 'model': _zmodel(C, [*C.CTX.assumptions, *p.pc, ~cond])}, f'{tname} raised for representable data'))
             continue
         nsaved += 1
         da, saved, fmt, header = p.value
         ob = C.prove(f'{tag}:path{k}:written => representable (nothing refused)', ~refuse, pc=p.pc)
         obs.append(ob_dict(ob))
         if ob.status == 'violated':
-            m = C.solve([*C.CTX.assumptions, *p.pc, refuse])
-            mod = {}
-            if m.status == 'sat':
-                zm = m.solver.model()
-                mod = {str(d): str(zm[d]) for d in zm.decls()}
-            cands.append(('C15:refusal', {**case, 'model': mod}, 'unrepresentable data written'))
+            cands.append(('C15:refusal', {**case, 'model': _zmodel(C, [*C.CTX.assumptions, *p.pc, refuse])}, 'unrepresentable data written'))
         # matrix handed to savetxt: (coord, values, sqrt(variances)) with the documented coordinate
         if saved is None or saved.shape != (n, 3):
             obs.append({'name': f'{tag}:path{k}:table shape', 'status': 'violated', 't': 0, 'detail': str(None if saved is None else saved.shape)})
-            cands.append(('C15:table', case, 'table shape'))
+            cands.append(('C15:table', {**case, 'model': _zmodel(C, [*C.CTX.assumptions, *p.pc])}, 'table shape'))
             continue
         for cond, cname in chosen_cases:
             if C.solve([*C.CTX.assumptions, *p.pc, cond], want_model=False).status == 'unsat':
@@ -247,7 +286,7 @@ def job_refusal(j, seed):
             ob = C.prove(f'{tag}:path{k}:columns = ({cname} coordinate, values, sqrt(variances))', good, pc=[*p.pc, cond])
             obs.append(ob_dict(ob))
             if ob.status == 'violated':
-                cands.append(('C15:table', case, 'wrong columns'))
+                cands.append(('C15:table', {**case, 'model': _zmodel(C, [*C.CTX.assumptions, *p.pc, cond])}, f'first column is not the {cname} coordinate'))
         # text precision: the format has >= 17 significant digits (Matula): 10^(p+1-1) > 2^53 for %.{p}e
         import re as _re
         mm = _re.fullmatch(r'%\.(\d+)e', fmt if isinstance(fmt, str) else '')
@@ -272,7 +311,7 @@ def job_roundtrip(j, seed):
     obs, cands = [], []
     case = {'kind': 'roundtrip', 'n': n}
     da = XDA(sc, C, True, n)
-    for c in (da.ndim == 1, ~da.masks.b, da.ncoords == 1, ~da.edges['DIM']):
+    for c in (da.ndim == 1, ~da.masks.b, da.ncoords == 1, da.has_dim, ~da.edges['DIM']):
         C.CTX.assume(c)
     C.CTX.fork_timeout_ms = 3000
 
@@ -317,15 +356,15 @@ def run(chk):
     from symex import loader
 
     chk.functions = loader.describe([xye.save_xye, xye.load_xye, xye._deduce_coord, xye._generate_xye_header])
-    jobs = [(hv, cg, n) for hv in (True, False) for cg in (True, False) for n in ((1, 2) if chk.tier == 'quick' else (1, 2, 3))]
+    jobs = [(hv, cg, n) for hv in (True, False) for cg in (None, 'DIM', 'other') for n in ((1, 2) if chk.tier == 'quick' else (1, 2, 3))]
     run_jobs(chk, job_refusal, jobs)
     run_jobs(chk, job_roundtrip, [1, 2, 3])
-    chk.bounds = {'configuration': 'ndim, number of coordinates (symbolic integers), masks / dimension-coordinate / bin-edge flags (symbolic Booleans); variances present and coord argument enumerated',
+    chk.bounds = {'configuration': 'ndim (symbolic integer), number of coordinates (symbolic, 0..3), masks / dimension-coordinate present / per-coordinate bin-edge and alignment flags (symbolic Booleans); variances present and coord argument (None, dimension-coordinate, another coordinate) enumerated',
                   'rows': '1..3 with symbolic values'}
     chk.stubs = ['numpy c_/sqrt/savetxt/loadtxt: text layer = identity on doubles given >= 17 significant digits (Matula); a single row is returned 1-d as numpy does',
                  'logger -> no-op', 'DataArray -> stand-in with symbolic structural properties']
     chk.axioms = ['correctly rounded printf/strtod (trusted)', '(1+delta) rounding model for sqrt and square']
-    chk.assumptions = ['numpy prefixes every header line with the comment marker (trusted)', 'bit-level equality of coordinate/values follows from the text-layer identity']
+    chk.assumptions = ['a coordinate named explicitly exists', 'numpy prefixes every header line with the comment marker (trusted)', 'bit-level equality of coordinate/values follows from the text-layer identity']
 
 
 def replay_real(case):
@@ -337,6 +376,80 @@ def replay_real(case):
 
     rng = np.random.default_rng(8)
     bad = []
+    if case.get('kind') == 'save' and case.get('model'):
+        m = case['model']
+
+        def geti(suffix, default):
+            for k_, v_ in m.items():
+                if k_ == suffix or k_.endswith('_' + suffix):
+                    try:
+                        return int(v_)
+                    except ValueError:
+                        return default
+            return default
+
+        def getb(name, default):
+            return {'True': True, 'False': False}.get(m.get(name), default)
+
+        n = case['n']
+        ndim, ncoords = geti('ndim', 1), max(0, geti('ncoords', 1))
+        hd = getb('dim_coord_present', ncoords >= 1)
+        masks = getb('has_masks', False)
+        present = (['DIM'] if hd else []) + OTHERS[:ncoords - (1 if hd else 0)]
+        real = {'DIM': 'tof', 'other': 'a', 'other2': 'b', 'other3': 'c'}
+        y = rng.normal(size=n) * 10
+        v = np.abs(rng.normal(size=n)) + 0.5
+        if ndim == 1:
+            data = sc.array(dims=['tof'], values=y, variances=v if case['has_var'] else None, unit='counts')
+        elif ndim <= 0:
+            data = sc.scalar(1.5, variance=0.5 if case['has_var'] else None, unit='counts')
+        else:
+            data = sc.array(dims=['q', 'tof'], values=y[None, :], variances=v[None, :] if case['has_var'] else None, unit='counts')
+        coords, xs = {}, {}
+        for nm in present:
+            edge = getb(f'edges_{nm}', False)
+            xs[nm] = np.sort(rng.normal(size=n + (1 if edge else 0)) * 100)
+            if ndim >= 1:
+                coords[real[nm]] = sc.array(dims=['tof'], values=xs[nm], unit='us')
+            else:
+                coords[real[nm]] = sc.scalar(float(xs[nm][0]), unit='us')
+        da = sc.DataArray(data, coords=coords)
+        for nm in present:
+            if not getb(f'aligned_{nm}', True):
+                da.coords.set_aligned(real[nm], False)
+        if masks and ndim >= 1:
+            da.masks['m'] = sc.array(dims=['tof'], values=np.zeros(n, bool))
+        given = case.get('coord_given')
+        # the documented rule, independently
+        if given:
+            chosen, ambiguous = given, False
+        elif ncoords == 1:
+            chosen, ambiguous = present[0], False
+        elif ncoords > 1 and hd:
+            chosen, ambiguous = 'DIM', False
+        else:
+            chosen, ambiguous = None, ncoords > 1
+        refuse = (not case['has_var']) or ndim != 1 or masks or ncoords == 0 or ambiguous or (chosen is not None and getb(f'edges_{chosen}', False))
+        f = io.StringIO()
+        try:
+            xye.save_xye(f, da, coord=real[given] if given else None)
+            wrote = True
+        except (sc.VariancesError, sc.DimensionError, sc.CoordError, ValueError) as e:
+            wrote = False
+            err = f'{type(e).__name__}: {e}'
+        except Exception as e:  # noqa: BLE001
+            return {'reproduced': True, 'detail': f'unexpected {type(e).__name__}: {e}'[:300]}
+        desc = f'ndim={ndim}, coords={[(real[nm], "aligned" if getb(f"aligned_{nm}", True) else "unaligned", "edges" if getb(f"edges_{nm}", False) else "") for nm in present]}, masks={masks}, variances={case["has_var"]}, coord={real[given] if given else None}'
+        if wrote and refuse:
+            bad.append(f'unrepresentable data written: {desc}')
+        elif not wrote and not refuse:
+            bad.append(f'representable data refused ({err[:80]}): {desc}')
+        elif wrote:
+            f.seek(0)
+            tab = np.loadtxt(f, ndmin=2)
+            if tab.shape != (n, 3) or not np.array_equal(tab[:, 0], xs[chosen]) or not np.array_equal(tab[:, 1], y):
+                bad.append(f'first column is not the {real[chosen]} coordinate (or values changed): {desc}')
+        return {'reproduced': bool(bad), 'detail': '; '.join(bad[:3])}
     for n in (1, 2, 5, 50):
         vals = np.concatenate([rng.normal(size=n) * 10.0 ** rng.integers(-300, 300, size=n)])[:n]
         var = np.abs(rng.normal(size=n)) * 10.0 ** rng.integers(-200, 200, size=n)
